@@ -132,7 +132,7 @@ def dispatchAsync (cfg : Config) (lr : LoadResult) (ctx : String) (susp : Event 
       | .raised _ => .result (replySingle ⟨none, .unset, .set (invalidRequestWith (.set freeText))⟩) []
       | .ok batch =>
         if tooLarge cfg.maxBatchSize batch.requests.length then
-          .result (replySingle ⟨none, .unset, .set (invalidRequestWith (.set (.str "batch too large")))⟩) []
+          .result (replySingle ⟨none, .unset, .set (invalidRequestWith (.set freeText))⟩) []
         else dispatchAsyncBatch cfg ctx susp concurrent batch.requests sched
     else
       match Request.fromJson j with
